@@ -43,6 +43,24 @@ Theorem C20_fill_sample : forall s order input,
                        else Nat.min (ssamples s - length input) (length (scosts s)))%nat.
 Proof. exact fill_sample_spec. Qed.
 
+(** a sample size no collection can hold ("sample everything"): the input, then every tracked pair; which such size
+    it is does not matter *)
+Theorem C20_fill_sample_saturates : forall s order input,
+  (length input + length order <= ssamples s)%nat ->
+  sam_fill s order input = input ++ order.
+Proof. exact fill_sample_saturates. Qed.
+
+Theorem C20_fill_sample_size_irrelevant : forall s1 s2 order input,
+  (length input + length order <= ssamples s1)%nat ->
+  (length input + length order <= ssamples s2)%nat ->
+  sam_fill s1 order input = sam_fill s2 order input.
+Proof. exact fill_sample_size_irrelevant. Qed.
+
+Example C20_saturates_witness :
+  let s := samrun (sam_new 100 1000) [SInc 1 5; SInc 2 7] in
+  sam_fill s (scosts s) [(9, 9)] = (9, 9) :: scosts s /\ length (scosts s) = 2%nat.
+Proof. vm_compute. split; reflexivity. Qed.
+
 Example C20_witness :
   let s := samrun (sam_new 100 5) [SInc 1 5; SInc 1 5; SInc 2 7; SRem 1] in
   sam_room_left s 0 = 93 /\ scosts s = [(2, 7)].
@@ -60,3 +78,5 @@ Print Assumptions C20_tracked_keys_distinct.
 Print Assumptions C20_update_reports_tracked.
 Print Assumptions C20_remove_reports_cost.
 Print Assumptions C20_fill_sample.
+Print Assumptions C20_fill_sample_saturates.
+Print Assumptions C20_fill_sample_size_irrelevant.
